@@ -54,7 +54,12 @@ def param_root(t, _elem: bool = False) -> Optional[str]:
     while isinstance(t, tuple) and t:
         if t[0] == 'param':
             return t[1]
-        if t[0] in ('attr', 'sub', 'elem', 'unpack', 'unpack*', 'star', 'withas'):
+        if t[0] == 'sub' and isinstance(t[2], tuple) and t[2][:1] == ('slice',):
+            # x[a:b] is a new list / str (a shallow copy): modifying it leaves x alone; its elements are still x's
+            if not _elem:
+                return None
+            t = t[1]
+        elif t[0] in ('attr', 'sub', 'elem', 'unpack', 'unpack*', 'star', 'withas'):
             t = t[1]
             _elem = True
         elif t[0] == 'phi':
